@@ -61,6 +61,25 @@ theorem C07_scanners_inside :
     (∀ (bnd s pre rest : Bytes) (term : Bool), findBoundary bnd s = some (pre, term, rest) → s = pre ++ rest ∧ rest ≠ []) :=
   ⟨Proofs.findHeader_inside, Proofs.skipLine_suffix, Proofs.findBoundary_split⟩
 
+/-- The `for (;;)` of `findboundary` that the (structurally recursive) list model stands for, one round: at the end of
+the text NULL; a delimiter line at `s` is returned; otherwise the loop goes on with the line `skipline` finds from
+where the comparisons stopped (`continueAt`: after `--`, after `--` boundary, or after `--` boundary `--` - not from the
+beginning of the line compared), which is a proper suffix of the text - the loop makes progress on every round. -/
+theorem C07_findBoundary_round (bnd s : Bytes) :
+    (findBoundary bnd s =
+      match s, delimiterLine bnd s with
+      | [], _ => none
+      | _ :: _, some term => some ([], term, s)
+      | _ :: _, none =>
+        (findBoundary bnd (skipLine (continueAt bnd s))).map fun x => (s.take (nextLineDist bnd s) ++ x.1, x.2.1, x.2.2)) ∧
+    (s ≠ [] → (skipLine (continueAt bnd s)).length < s.length) :=
+  ⟨Proofs.findBoundaryAux_round bnd s, fun h => Proofs.nextLine_length_lt bnd h⟩
+
+/-- A text with a line that begins inside a compared boundary: boundary `"a\n"`, text `"--a\n--a\n\n"`; the line at
+offset 4 is a delimiter line, yet it is never examined. -/
+example : delimiterLine [97, 10] [45, 45, 97, 10, 10] = some false ∧
+    findBoundary [97, 10] [45, 45, 97, 10, 45, 45, 97, 10, 10] = none := by decide
+
 /-- Multipart parsing terminates by itself and its table is bounded by the text, for every message: hundreds of
 parts, nesting beyond the limit (an error, by the depth fuel), unterminated or repeated delimiters. -/
 theorem C07_multipart_terminates :
@@ -303,13 +322,14 @@ theorem C07_L0_refines_search (kb : Buf) (k : Nat) (buf : Buf) (hs : Array Hdr0)
 
 open L0 in
 /-- `skipline` (the exact index), `parseboundary` (the same outcome; the `strndup`ed boundary is the C string of the
-list model's boundary), and `findboundary` for a boundary without a newline: the line it returns is at
-`i + |before|`, with the list model's terminator flag, the text before it is `before` and the view at it `rest`. -/
+list model's boundary), and `findboundary` for EVERY boundary (a boundary that contains a newline included - the list
+model resumes, like message.c, after the text compared): the line it returns is at `i + |before|`, with the list
+model's terminator flag, the text before it is `before` and the view at it `rest`. -/
 theorem C07_L0_refines_mime_scanners (b : Buf) (hb : b.bytes.back? = some 0) (i : Nat) (hi : i < b.size) :
     (skipLine b i = .ok (i + l0r_lineLen (b.view i)) ∧
       b.view (i + l0r_lineLen (b.view i)) = Model.skipLine (b.view i)) ∧
     (∃ r, parseBoundary b i = .ok r ∧ l0r_BoundaryRel r (Model.parseBoundary (b.view i))) ∧
-    (∀ bnd : Buf, bnd.bytes.back? = some 0 → 10 ∉ bnd.view 0 →
+    (∀ bnd : Buf, bnd.bytes.back? = some 0 →
       findBoundary bnd b i = .ok ((Model.findBoundary (bnd.view 0) (b.view i)).map (l0r_shift i)) ∧
       ∀ before term rest, Model.findBoundary (bnd.view 0) (b.view i) = some (before, term, rest) →
         b.view (i + before.length) = rest ∧ b.slice i (i + before.length) = before) := by
@@ -317,19 +337,22 @@ theorem C07_L0_refines_mime_scanners (b : Buf) (hb : b.bytes.back? = some 0) (i 
   refine ⟨⟨l0r_skipLine_spec h, ?_⟩, l0r_parseBoundary_refines b h, ?_⟩
   · rw [l0r_skipLine_drop]
     exact (h.add _ (l0r_lineLen_le _)).2
-  · intro bnd hbnd hnl
-    refine ⟨l0r_findBoundary_refines bnd b (Buf.Terminated.hasNul0 hbnd) hnl h, ?_⟩
+  · intro bnd hbnd
+    refine ⟨l0r_findBoundary_refines bnd b (Buf.Terminated.hasNul0 hbnd) h, ?_⟩
     intro before term rest hf
     obtain ⟨_, h2, h3, _⟩ := l0r_findBoundary_pos h hf
     exact ⟨h2, h3⟩
 
 open L0 in
-/-- Without the hypothesis on the boundary the statement about `findboundary` is false: with boundary `"a\n"` and
-text `"--a\n--a\n\n"` the C code (and its index-level transcription) returns NULL - after comparing `"--a\n--"` from
-offset 0 it resumes with `skipline` from offset 6 and never examines the line at offset 4 - while the list model
-`Model.findBoundary` reports the delimiter line at offset 4.  The list model is the one that departs from message.c. -/
-theorem C07_L0_refines_findBoundary_unrestricted_false : ¬ l0r_findBoundary_refines_unrestricted :=
-  l0r_findBoundary_newline_witness
+/-- The input that separated the former list model from message.c: with boundary `"a\n"` and text `"--a\n--a\n\n"`
+the C code (and its index-level transcription) returns NULL - after comparing `"--a\n--"` from offset 0 it resumes with
+`skipline` from offset 6 and never examines the line at offset 4.  The list model now does the same (it used to report
+the delimiter line at offset 4). -/
+theorem C07_L0_refines_findBoundary_newline_example :
+    10 ∈ l0r_witBnd.view 0 ∧
+    findBoundary l0r_witBnd l0r_witText 0 = .ok none ∧
+    Model.findBoundary (l0r_witBnd.view 0) (l0r_witText.view 0) = none :=
+  ⟨l0r_findBoundary_newline_example.1, l0r_witness_L0, l0r_witness_L1⟩
 
 open L0 in
 /-- `message_get_header1`: the C string returned is the list model's value. -/
@@ -342,42 +365,51 @@ open L0 in
 /-- `parseattachments(msg, parent, depth)` at every depth (`fuel = 5 - depth`), for every well-formed top-level
 message, every attachment table and every valid `msg`: the error return is the list model's `none`; otherwise the
 elements appended to the parent's table, read back, are the list model's parts in the same (pre-)order
-(`l0r_AttRel`).  Hypothesis `l0r_bndNl` (an executable `Bool`): no boundary the list model's traversal works with
-contains a newline. -/
+(`l0r_AttRel`).  No hypothesis on the boundaries (a newline in a boundary included). -/
 theorem C07_L0_refines_parseAttachments (root : Att) (hr : AttOk root) (fuel : Nat) (v : Vec Att) (msg : MsgRef)
-    (m : Att) (hv : VecOk v) (hm : RefOk v msg) (hd : derefMsg root v msg = .ok m)
-    (hnl : l0r_bndNl fuel (l0r_readAtt m) = true) :
+    (m : Att) (hv : VecOk v) (hm : RefOk v msg) (hd : derefMsg root v msg = .ok m) :
     ∃ v' e, parseAttachments fuel root v msg = .ok (v', e) ∧ VecOk v' ∧
       l0r_AttRel v v' e (Model.parseAttachments fuel (l0r_readAtt m)) :=
-  l0r_parseAttachments_refines root hr fuel v msg m hv hm hd hnl
+  l0r_parseAttachments_refines root hr fuel v msg m hv hm hd
 
 open L0 in
 /-- `message_get_attachments`: NULL exactly when the list model says `none`, otherwise the attachment vector read
 back is `Model.getAttachments` - so C11 (parts, bodies, attachment conditions) holds of the index-level code. -/
-theorem C07_L0_refines_attachments (root : Att) (hr : AttOk root)
-    (hnl : l0r_bndNl (Gen.mimeDepthLimit + 1) (l0r_readAtt root) = true) :
+theorem C07_L0_refines_attachments (root : Att) (hr : AttOk root) :
     ∃ r, getAttachments root = .ok r ∧
       r.map (fun a => a.toList.map l0r_readAtt) = Model.getAttachments (l0r_readAtt root) :=
-  l0r_getAttachments_refines root hr hnl
+  l0r_getAttachments_refines root hr
 
 open L0 in
 /-- A whole message from its NUL-terminated buffer: `message_parse_headers` leaves the list model's message and
 `message_get_attachments` returns the list model's attachments. -/
-theorem C07_L0_refines_message (b : Buf) (hb : b.bytes.back? = some 0) (path : Bytes)
-    (hnl : l0r_bndNl (Gen.mimeDepthLimit + 1) (Model.parseHeaders (b.view 0)) = true) :
+theorem C07_L0_refines_message (b : Buf) (hb : b.bytes.back? = some 0) (path : Bytes) :
     ∃ b' hs body r, messageParseHeaders b = .ok (b', hs, body) ∧
       l0r_readAtt { buf := b', headers := hs, body := body, path := path } = Model.parseHeaders (b.view 0) ∧
       getAttachments { buf := b', headers := hs, body := body, path := path } = .ok r ∧
       r.map (fun a => a.toList.map l0r_readAtt) = Model.getAttachments (Model.parseHeaders (b.view 0)) :=
-  l0r_message_refines b hb path hnl
+  l0r_message_refines b hb path
 
 open L0 in
-/-- Without `l0r_bndNl` the statement about whole messages is false: in the file
+/-- The same for EVERY file (`message_parse` of its bytes, then `message_get_attachments`) - the statement package PG2
+refuted for the former list model (`l0r_message_refines_unrestricted`), now a theorem without hypotheses. -/
+theorem C07_L0_refines_file (file : Bytes) :
+    ∃ b' hs body r, messageParseHeaders (Buf.ofBytes file) = .ok (b', hs, body) ∧
+      getAttachments { buf := b', headers := hs, body := body, path := [] } = .ok r ∧
+      r.map (fun a => a.toList.map l0r_readAtt) = Model.getAttachments (Model.parseMessage file) :=
+  l0r_file_refines file
+
+open L0 in
+/-- The message that separated the former list model from message.c: in the file
 `Content-Type: multipart/mixed; boundary="=?UTF-8?Q?a=0A?="\n\n--a\n--a\n\nX: y\n\nfound\n--a\n--\n` (boundary `"a\n"`)
-the index-level code, like message.c, finds no part, the list model finds one.  Where the two part, it is the list model
-(`Model.findBoundaryAux`) that departs from message.c. -/
-theorem C07_L0_refines_message_unrestricted_false : ¬ l0r_message_refines_unrestricted :=
-  l0r_message_newline_witness
+the index-level code, like message.c (checked on the real binary), finds no part and no error - and so does the list
+model (it used to find one part). -/
+theorem C07_L0_refines_message_newline_example :
+    (Model.getHeader1 (Model.parseMessage l0r_witMsg) Model.contentTypeName).map Model.parseBoundary =
+      some (.ok [97, 10]) ∧
+    l0r_partsCount l0r_witMsg = some 0 ∧
+    Model.getAttachments (Model.parseMessage l0r_witMsg) = some [] :=
+  ⟨l0r_witMsg_boundary, l0r_witMsg_L0, l0r_witMsg_L1⟩
 
 open L0 in
 /-- `ismacro` (length and `strndup`ed name), `isbackref` (length and both indices, through both `strtoul` calls with
@@ -400,15 +432,15 @@ theorem C07_L0_refines_util (b : Buf) (hb : b.bytes.back? = some 0) (i : Nat) (h
 example : (L0.Buf.ofBytes (ofString "To: a\n b\nCc: c\n\nx")).bytes.back? = some 0 ∧
     0 < (L0.Buf.ofBytes (ofString "To: a\n b\nCc: c\n\nx")).size := by decide +kernel
 
-/-- A boundary `"b"` as `strndup` hands it out: terminated, no newline. -/
-example : (L0.Buf.ofBytes [98]).bytes.back? = some 0 ∧ 10 ∉ (L0.Buf.ofBytes [98]).view 0 := by decide
+/-- A boundary `"a\n"` as `strndup` hands it out: terminated (and with a newline). -/
+example : (L0.Buf.ofBytes [97, 10]).bytes.back? = some 0 ∧ 10 ∈ (L0.Buf.ofBytes [97, 10]).view 0 := by decide +kernel
 
 /-- A header name without NUL. -/
 example : ∀ x ∈ L0.contentTypeName, x ≠ 0 := by decide
 
 /-- The message `Content-Type: multipart/mixed; boundary="b"` with body `--b\nA: 1\n\nx\n--b--\n` after
-`message_parse_headers` (NULs at offsets 12 and 43, one table entry, `me_body` at offset 45): well formed, its only
-boundary is newline-free, and it has one part. -/
+`message_parse_headers` (NULs at offsets 12 and 43, one table entry, `me_body` at offset 45): well formed, and it has
+one part. -/
 def l0rExampleRoot : L0.Att :=
   { buf := ⟨#[67, 111, 110, 116, 101, 110, 116, 45, 84, 121, 112, 101, 0, 32,
       109, 117, 108, 116, 105, 112, 97, 114, 116, 47, 109, 105, 120, 101, 100, 59, 32,
@@ -416,24 +448,22 @@ def l0rExampleRoot : L0.Att :=
       45, 45, 98, 10, 65, 58, 32, 49, 10, 10, 120, 10, 45, 45, 98, 45, 45, 10, 0]⟩,
     headers := #[{ id := 1, key := 0, val := 14 }], body := 45, path := [] }
 
-example : L0.AttOk l0rExampleRoot ∧ L0.l0r_bndNl (Gen.mimeDepthLimit + 1) (L0.l0r_readAtt l0rExampleRoot) = true ∧
+example : L0.AttOk l0rExampleRoot ∧
     Model.getAttachments (L0.l0r_readAtt l0rExampleRoot) =
       some [{ headers := [{ id := 1, key := [65], val := [49] }], body := [120, 10] }] := by
-  refine ⟨⟨⟨63, by decide, rfl⟩, ?_⟩, by decide +kernel, by decide +kernel⟩
+  refine ⟨⟨⟨63, by decide, rfl⟩, ?_⟩, by decide +kernel⟩
   intro h hh
   simp only [l0rExampleRoot, Array.mem_def, List.mem_cons, List.not_mem_nil, or_false] at hh
   subst hh
   exact ⟨⟨12, by decide, rfl⟩, ⟨43, by decide, rfl⟩⟩
 
-/-- The same message as a file: terminated buffer, newline-free boundary. -/
-example : (L0.Buf.ofBytes (ofString "Content-Type: multipart/mixed; boundary=\"b\"\n\n--b\nA: 1\n\nx\n--b--\n")).bytes.back? = some 0 ∧
-    L0.l0r_bndNl (Gen.mimeDepthLimit + 1) (Model.parseHeaders
-      ((L0.Buf.ofBytes (ofString "Content-Type: multipart/mixed; boundary=\"b\"\n\n--b\nA: 1\n\nx\n--b--\n")).view 0)) = true := by
+/-- The same message as a file: terminated buffer. -/
+example : (L0.Buf.ofBytes (ofString "Content-Type: multipart/mixed; boundary=\"b\"\n\n--b\nA: 1\n\nx\n--b--\n")).bytes.back? = some 0 := by
   decide +kernel
 
 /-- The top-level message, an empty table and `msg = root` for `C07_L0_refines_parseAttachments`. -/
 example : ∃ (v : L0.Vec L0.Att) (msg : L0.MsgRef) (m : L0.Att), L0.VecOk v ∧ L0.RefOk v msg ∧
-    L0.derefMsg l0rExampleRoot v msg = .ok m ∧ L0.l0r_bndNl 5 (L0.l0r_readAtt m) = true :=
-  ⟨L0.Vec.init, .root, l0rExampleRoot, by intro a ha; simp [L0.Vec.init] at ha, trivial, rfl, by decide +kernel⟩
+    L0.derefMsg l0rExampleRoot v msg = .ok m :=
+  ⟨L0.Vec.init, .root, l0rExampleRoot, by intro a ha; simp [L0.Vec.init] at ha, trivial, rfl⟩
 
 end Mdsort.Props
